@@ -1,4 +1,4 @@
-import RP.LogsStep
+import RP.Snap1
 import RP.Lists2
 
 /-! probe: acknowledgements, grant-time logs, retention invariants -/
